@@ -38,6 +38,44 @@ pub struct Case {
     pub out_conf: WConf,
 }
 
+/// Very many sources (source positions beyond 255 and beyond 65 535), almost all of them empty, a few holding a
+/// shared key: the order of values must still follow the position at which the sources were added.
+#[derive(Clone, Debug, Hash, Serialize, Deserialize)]
+pub struct ManyCase {
+    pub k: u32,
+    /// (position selector, where: 0 = near the front, 1 = near the end, 2 = just past 65 536, 3 = just past 256, 4 = anywhere)
+    pub holders: Vec<(u16, u8)>,
+    pub kind: MergeKind,
+    pub add_style: u8,
+}
+
+#[derive(Clone, Debug, Hash, Serialize, Deserialize)]
+pub enum TopCase {
+    Std(Case),
+    Many(ManyCase),
+}
+
+pub fn many_positions(c: &ManyCase) -> Vec<usize> {
+    let k = c.k as usize;
+    let mut v: Vec<usize> = c
+        .holders
+        .iter()
+        .map(|(sel, place)| {
+            let s = *sel as usize;
+            match place % 5 {
+                0 => (s % 24).min(k - 1),
+                1 => k - 1 - (s % 24).min(k - 1),
+                2 => (65_536 + s % 24).min(k - 1),
+                3 => (256 + s % 24).min(k - 1),
+                _ => crate::common::pick(*sel, k),
+            }
+        })
+        .collect();
+    v.sort();
+    v.dedup();
+    v
+}
+
 /// The source files of a case: per source the sorted entries.
 pub fn materialise(case: &Case) -> Vec<Entries> {
     let keys: Vec<Vec<u8>> = case.universe.entries().into_iter().map(|e| e.0).take(300).collect();
@@ -108,13 +146,13 @@ pub fn build_merger<'a>(files: &'a [Vec<u8>], mf: MF, add_style: u8) -> Check<gr
 }
 
 impl Prop for C06 {
-    type Case = Case;
+    type Case = TopCase;
 
     fn id(&self) -> &'static str {
         "C06"
     }
 
-    fn stages(&self, tier: Tier) -> Vec<Stage<Case>> {
+    fn stages(&self, tier: Tier) -> Vec<Stage<TopCase>> {
         let universe = prop_oneof![
             3 => gen::list_src(gen::key_ascii(), Just(crate::common::Blob::Lit(vec![])).boxed(), 300),
             2 => gen::list_src(gen::key_tiny(), Just(crate::common::Blob::Lit(vec![])).boxed(), 120),
@@ -124,7 +162,14 @@ impl Prop for C06 {
         let source = (0u8..4, vec(any::<u8>(), 1..40), gen::wconf_light()).prop_map(|(density, mask, conf)| SourceSpec { density, mask, conf });
         let s = (universe, vec(source, 0..=8), prop::sample::select(&MergeKind::ALL[..]), 0u8..4, gen::wconf_light())
             .prop_map(|(universe, sources, kind, add_style, out_conf)| Case { universe, sources, kind, add_style, out_conf });
-        vec![stage("merges", s, tier.pick(6000, 80_000)).shrink(600)]
+        let many = (
+            prop_oneof![2 => 257u32..400, 3 => 65_537u32..65_700, 1 => 2u32..64],
+            vec((any::<u16>(), 0u8..5), 2..=6),
+            prop::sample::select(&MergeKind::ALL[..]),
+            0u8..4,
+        )
+            .prop_map(|(k, holders, kind, add_style)| TopCase::Many(ManyCase { k, holders, kind, add_style }));
+        vec![stage("merges", s.prop_map(TopCase::Std), tier.pick(6000, 80_000)).shrink(600), stage("many-sources", many, tier.pick(48, 1000)).shrink(20)]
     }
 
     fn rule(&self) -> String {
@@ -143,12 +188,41 @@ impl Prop for C06 {
         vec![("merge:nontrivial", tier.pick(600, 8000)), ("merge:k=0", tier.pick(100, 1500)), ("merge:empty-source", tier.pick(600, 8000))]
     }
 
-    fn run(&self, case: &Case, obs: &mut Obs) -> Check {
-        let srcs = materialise(case);
-        let mut files = Vec::new();
-        for (s, e) in srcs.iter().enumerate() {
-            files.push(write_file(&case.sources[s].conf, e)?);
-        }
+    fn run(&self, top: &TopCase, obs: &mut Obs) -> Check {
+        let many_case;
+        let (case, srcs, files): (&Case, Vec<Entries>, Vec<Vec<u8>>) = match top {
+            TopCase::Std(case) => {
+                let srcs = materialise(case);
+                let mut files = Vec::new();
+                for (s, e) in srcs.iter().enumerate() {
+                    files.push(write_file(&case.sources[s].conf, e)?);
+                }
+                (case, srcs, files)
+            }
+            TopCase::Many(mc) => {
+                let positions = many_positions(mc);
+                let plain = WConf::plain();
+                let empty = write_file(&plain, &[])?;
+                let mut srcs: Vec<Entries> = vec![Vec::new(); mc.k as usize];
+                let mut files: Vec<Vec<u8>> = vec![empty; mc.k as usize];
+                for (j, p) in positions.iter().enumerate() {
+                    let tag = [(*p >> 16) as u8, (*p >> 8) as u8, *p as u8, 0x5a];
+                    let v = match mc.kind {
+                        MergeKind::Concat => record(&tag),
+                        MergeKind::SumU32 => (*p as u32 + 1).to_le_bytes().to_vec(),
+                        _ => tag.to_vec(),
+                    };
+                    // every holder has the shared key and a key of its own
+                    let mut e = vec![(b"shared".to_vec(), v.clone()), (format!("own-{j:03}").into_bytes(), v)];
+                    e.sort();
+                    files[*p] = write_file(&plain, &e)?;
+                    srcs[*p] = e;
+                }
+                many_case = Case { universe: EntrySrc::List(vec![]), sources: vec![], kind: mc.kind, add_style: mc.add_style, out_conf: plain };
+                obs.class(if mc.k > 65_536 { "merge:k>65536" } else if mc.k > 256 { "merge:k>256" } else { "merge:many-small" });
+                (&many_case, srcs, files)
+            }
+        };
         // model: key -> [(source index, value)]
         let mut model: BTreeMap<Vec<u8>, Vec<(usize, Vec<u8>)>> = BTreeMap::new();
         for (s, e) in srcs.iter().enumerate() {
@@ -236,7 +310,7 @@ impl Prop for C06 {
         }
 
         // classification
-        let k = case.sources.len();
+        let k = srcs.len();
         obs.class(format!("merge:k={}", k.min(4)));
         if srcs.iter().any(|e| e.is_empty()) {
             obs.class("merge:empty-source");
